@@ -288,9 +288,19 @@ def rec_buffer_class(base, trace, name="buffer"):
             return super().add_sample(**sample)
 
         def sample_batch(self, *a, **kw):
+            # subtrajectory buffers: is there any admissible window start?
+            # (sampling from a buffer without one is outside the documented
+            # domain: p_i / sum(p) is undefined)
+            admissible = None
+            if hasattr(self, "mask_"):
+                w = np.asarray(self.mask_, np.float64)
+                pr = getattr(getattr(self, "priority", None), "priority", None)
+                if pr is not None:
+                    w = w * np.asarray(pr, np.float64)[: len(w)]
+                admissible = bool(np.any(w[: len(self)] > 0))
             out = super().sample_batch(*a, **kw)
             b = out[0] if isinstance(out, tuple) and not hasattr(out, "_fields") else out
-            trace.ev("sample", buf=name,
+            trace.ev("sample", buf=name, admissible=admissible,
                      batch={k: np.asarray(getattr(b, k)) for k in b._fields},
                      extra=(np.asarray(out[1]) if b is not out else None),
                      snap=trace.snap())
